@@ -77,18 +77,17 @@ fn extract_bracket_expr(pattern: &str) -> Option<(String, &str)> {
                 //
                 //     6. ...  A character class expression is expressed as a character class name
                 //        enclosed within bracket- <colon> ( "[:" and ":]" ) delimiters.
-                next = chars.next();
-                if let Some(delim) = next {
+                // Only "[.", "[=" and "[:" open a nested construct; before any other
+                // character the '[' is an ordinary member of the list.
+                let mut ahead = chars.clone();
+                if let Some(delim) = ahead.next().filter(|c| matches!(c, '.' | '=' | ':')) {
                     expr.push(delim);
-
-                    if matches!(delim, '.' | '=' | ':') {
-                        let rest = chars.as_str();
-                        // the closing delimiter is the two-character sequence "<delim>]"
-                        let close: String = [delim, ']'].iter().collect();
-                        let end = rest.find(&close)? + 2;
-                        expr.push_str(&rest[..end]);
-                        chars = rest[end..].chars();
-                    }
+                    let rest = ahead.as_str();
+                    // the closing delimiter is the two-character sequence "<delim>]"
+                    let close: String = [delim, ']'].iter().collect();
+                    let end = rest.find(&close)? + 2;
+                    expr.push_str(&rest[..end]);
+                    chars = rest[end..].chars();
                 }
             }
             ']' => {
